@@ -27,7 +27,7 @@ def seeds(ctx):
     for k in keys[:: (3 if ctx.tier == "quick" else 1)]:
         progs["fam_" + k] = fams[k]
     for k in keys:
-        if k.startswith("extern_"):              # the extern/unsafe seeds are always in
+        if k.startswith("extern_") or k.startswith("reuse_mut") or k.startswith("fnval_order_callees_last"):     # seeds tied to particular rules are always in
             progs["fam_" + k] = fams[k]
     for k in range(6 if ctx.tier == "quick" else 30):
         progs["gen_%d_%d" % (ctx.seed, k)] = Gen(ctx.seed * 2000003 + k).program()
